@@ -41,15 +41,19 @@ FinalSumsU(vals, k) == ReachU(vals, 1, {[b \in 1..k |-> 0]}, k)
 \* Bin packing: minimum number of bins of capacity C for all items (values <= C assumed).
 \* G[S] = lexicographically least (bins used, load of the open bin) over all orders of S.
 SumOfIds(vals, S) == FoldSet(LAMBDA i, acc: vals[i] + acc, 0, S)
+\* The table is built level by level (subsets of size j from subsets of size j-1) so that every entry is computed once:
+\* TLC evaluates function definitions lazily without memoising, so the direct recursion costs n! instead of n 2^n;
+\* TLCEval forces each level into an explicit table.
 MinBins(vals, C) ==
   LET N == Len(vals)
       Less(x, y) == x[1] < y[1] \/ (x[1] = y[1] /\ x[2] <= y[2])
-      G[S \in SUBSET (1..N)] ==
-        IF S = {} THEN <<0, C + 1>>  \* no bin yet: the "open bin" is over-full, so the first item (even a zero) opens one
-        ELSE LET cands == { LET p == G[S \ {i}]
-                            IN IF p[2] + vals[i] <= C THEN <<p[1], p[2] + vals[i]>> ELSE <<p[1] + 1, vals[i]>> : i \in S }
-             IN CHOOSE x \in cands : \A y \in cands : Less(x, y)
-  IN G[1..N][1]
+      Step(p, v) == IF p[2] + v <= C THEN <<p[1], p[2] + v>> ELSE <<p[1] + 1, v>>
+      BestOf(cands) == CHOOSE x \in cands : \A y \in cands : Less(x, y)
+      RECURSIVE Lvl(_,_)
+      Lvl(j, prev) == IF j > N THEN prev
+                      ELSE Lvl(j + 1, TLCEval([S \in kSubset(j, 1..N) |-> BestOf({ Step(prev[S \ {i}], vals[i]) : i \in S })]))
+      \* no bin yet: the "open bin" is over-full, so the first item (even a zero) opens one
+  IN Lvl(1, [S \in {{}} |-> <<0, C + 1>>])[1..N][1]
 MinBinsAlt(vals, C) ==
   LET Ids == 1..Len(vals)
       MB[S \in SUBSET Ids] ==
@@ -63,12 +67,12 @@ MinBinsAlt(vals, C) ==
 MaxCover(vals, C) ==
   LET N == Len(vals)
       Better(x, y) == x[1] > y[1] \/ (x[1] = y[1] /\ x[2] >= y[2])
-      G[S \in SUBSET (1..N)] ==
-        IF S = {} THEN <<0, 0>>
-        ELSE LET cands == { LET p == G[S \ {i}]
-                            IN IF p[2] + vals[i] >= C THEN <<p[1] + 1, 0>> ELSE <<p[1], p[2] + vals[i]>> : i \in S }
-             IN CHOOSE x \in cands : \A y \in cands : Better(x, y)
-  IN G[1..N][1]
+      Step(p, v) == IF p[2] + v >= C THEN <<p[1] + 1, 0>> ELSE <<p[1], p[2] + v>>
+      BestOf(cands) == CHOOSE x \in cands : \A y \in cands : Better(x, y)
+      RECURSIVE Lvl(_,_)
+      Lvl(j, prev) == IF j > N THEN prev
+                      ELSE Lvl(j + 1, TLCEval([S \in kSubset(j, 1..N) |-> BestOf({ Step(prev[S \ {i}], vals[i]) : i \in S })]))
+  IN Lvl(1, [S \in {{}} |-> <<0, 0>>])[1..N][1]
 \* cross-check: maximum number of pairwise disjoint covering subsets, canonical recursion
 MaxCoverAlt(vals, C) ==
   LET Ids == 1..Len(vals)
